@@ -288,3 +288,73 @@ class BodyKeysValidator(Contract):
 
 
 UNITS.append(BodyKeysValidator())
+
+
+class TextToSequence(Contract):
+    """ValidationHelpers.convert_string_to_sequence(v) (before-validator of every text component's `text`): None stays None, a string
+    becomes a one-element list holding that very string, a sequence is passed on as it is (same lines, same order) - C02 / C10: the text the
+    user wrote is the text the emitters get."""
+    target = "input.py::ValidationHelpers.convert_string_to_sequence"
+    serves = ["C10", "C06"]
+    models = [StrModel()]
+    variants = ["none", "string", "list"]
+
+    def setup(self, c):
+        v = None if c.variant == "none" else (c.fresh("text", T.Str) if c.variant == "string" else c.fresh("lines", T.List(T.Str)))
+        c.bind("v", v)
+        c.v.update(val=v)
+
+    def ensures(self, c, out):
+        st, r = out.state, out.value
+        if c.variant == "none":
+            return {"none_stays_none": z3.BoolVal(r is None)}
+        if c.variant == "string":
+            ok = isinstance(r, Ref) and isinstance(st.obj(r), ListObj) and st.obj(r).items is not None and len(st.obj(r).items) == 1
+            return {"C10.a_string_becomes_one_line_holding_that_string": And(z3.BoolVal(bool(ok)), to_z3(norm_str(st.obj(r).items[0])) == to_z3(c.v["val"])) if ok else z3.BoolVal(False)}
+        return {"C10.a_list_of_lines_is_passed_on_as_it_is": z3.BoolVal(_same(r, c.v["val"]))}
+
+
+class ProcessTextConversion(Contract):
+    """RTFTableTextComponent._process_text_conversion(): the lines of a footnote / source become ONE string, the lines in their order joined
+    by the literal '\\\\line ' (an RTF line break between consecutive lines); no lines -> []; None stays None."""
+    target = "input.py::RTFTableTextComponent._process_text_conversion"
+    serves = ["C10", "C06"]
+    models = [StrModel()]
+    variants = ["lines", "no_lines", "none"]
+
+    def setup(self, c):
+        cls = c.cls("rtflite.input", "RTFTableTextComponent")
+        if c.variant == "none":
+            txt = None
+        elif c.variant == "no_lines":
+            txt = c.alloc(ListObj(items=[], fresh=False))
+        else:
+            txt = c.fresh("lines", T.List(T.Str, minlen=1))
+        me = c.alloc(RecObj("RTFFootnote", {"text": txt}, pyclass=cls, fresh=False))
+        c.bind("self", me)
+        c.v.update(me=me, txt=txt)
+        if c.variant == "lines":
+            o = c.obj(txt)
+            c.v.update(n0=o.length, g0=o.get)
+
+    def ensures(self, c, out):
+        from pyvc.values import Rope, Tok
+        st = out.state
+        t = st.obj(c.v["me"]).fields["text"]
+        if c.variant == "none":
+            return {"none_stays_none": z3.BoolVal(t is None)}
+        if c.variant == "no_lines":
+            ok = isinstance(t, Ref) and isinstance(st.obj(t), ListObj) and st.obj(t).items == []
+            return {"no_lines_give_an_empty_list": z3.BoolVal(bool(ok))}
+        t = norm_str(t)
+        ok = isinstance(t, Rope) and len(t.pieces) == 1 and isinstance(t.pieces[0], Tok) and t.pieces[0].tag == "JOIN"
+        if not ok:
+            return {"C10.lines_joined_in_order_by_the_line_break_word": z3.BoolVal(False)}
+        f = t.pieces[0].fields
+        k = z3.Int("k")
+        return {"C10.lines_joined_in_order_by_the_line_break_word": And(z3.BoolVal(norm_str(f.get("sep")) == "\\line "), to_z3(f["length"]) == to_z3(c.v["n0"]),
+                                                                        ForAll([k], Implies(And(0 <= k, k < to_z3(c.v["n0"])),
+                                                                                            to_z3(norm_str(f["get"](k))) == to_z3(norm_str(c.v["g0"](k))))))}
+
+
+UNITS.extend([TextToSequence(), ProcessTextConversion()])
